@@ -52,6 +52,8 @@ REQUIRED_FACTS = {
     'runcmd_start_error_returned': 'true',
     'runcmd_returned': '[((bs "return-value"), (bs "wait-exit-code")); ((bs "stdout"), (bs "stdout-capture")); '
                        '((bs "stderr"), (bs "stderr-capture"))]',
+    'runcmd_other_cmd_fields': '(@nil str)',
+    'intotorun_cmdargs_calls': '[(bs "len(cmdArgs)"); (bs "RunCommand(cmdArgs, runDir)")]',
     'waiterr_default': '(Some (-1)%Z)',
     'waiterr_on_nil': '(Some 0%Z)',
     'waiterr_on_exiterror': 'ExExitStatus',
